@@ -679,7 +679,119 @@ func (g *G) whileLoop(depth int) []Stmt {
 	}
 }
 
+// steppedRange is `for v in a..b:s` (or ..=) with a literal, let-bound or negative step, small and
+// large spans (|b-a| and |b-a|*|s| beyond half the type's range for 32/64-bit types); the last
+// increment never leaves the type's range.
+func (g *G) steppedRange(depth int) []Stmt {
+	t := []*Type{I32, I64, I16, I8, U32, U8, I32, I64}[g.pick(8)]
+	n := int64(1 + g.pick(5)) // iterations
+	var max, min int64
+	if t.Signed {
+		max = int64(1)<<(t.Bits-1) - 1
+		min = -max - 1
+	} else if t.Bits == 64 {
+		max, min = int64(1)<<62, 0
+	} else {
+		max, min = int64(1)<<t.Bits-1, 0
+	}
+	var step int64
+	switch g.pick(3) {
+	case 0:
+		step = int64(1 + g.pick(7))
+	case 1:
+		step = (max/2 - min/2) / (n + 1) / int64(1+g.pick(3)) // large: n*step is a sizeable part of the range
+		if step == 0 {
+			step = 1
+		}
+	default:
+		step = int64(1+g.pick(9)) * 10
+		if step*(n+1) > max/2-min/2 {
+			step = 1 + int64(g.pick(3))
+		}
+	}
+	down := t.Signed && g.chance(45)
+	var start int64
+	span := step * n
+	if down {
+		start = max - int64(g.pick(50))
+		if g.chance(50) {
+			start = span/2 + int64(g.pick(5))
+		}
+		if start-span-step < min {
+			start = min + span + step
+		}
+		step = -step
+	} else {
+		start = min + int64(g.pick(50))
+		if t.Signed && g.chance(50) {
+			start = -span/2 - int64(g.pick(5))
+		}
+		if start+span+step > max {
+			start = max - span - step
+		}
+	}
+	incl := g.chance(40)
+	// end: the loop visits start, start+step, ..., start+(n-1)*step
+	end := start + step*(n-1)
+	if incl {
+		if g.chance(50) && step != 1 && step != -1 { // end strictly between the last value and the next
+			if step > 0 {
+				end += 1 + int64(g.pick(int(min64(step-1, 3))))
+			} else {
+				end -= 1 + int64(g.pick(int(min64(-step-1, 3))))
+			}
+		}
+	} else {
+		if step > 0 {
+			end += 1 + int64(g.pick(int(min64(step, 3))))
+		} else {
+			end -= 1 + int64(g.pick(int(min64(-step, 3))))
+		}
+	}
+	var pre []Stmt
+	operand := func(prefix string, v int64) Expr {
+		if g.chance(40) {
+			return &Lit{T: t, I: v}
+		}
+		if g.cfg.on("call") && g.chance(40) { // opaque: the value (and the step's sign) is only known at run time
+			f := &Func{Name: g.fresh("rb"), Ret: t, Body: []Stmt{&Return{X: &Lit{T: t, I: v}}}}
+			g.prog.Funcs = append(g.prog.Funcs, f)
+			return &Call{Fn: f}
+		}
+		name := g.fresh(prefix)
+		g.declare(variable{name: name, t: t})
+		pre = append(pre, &Let{Name: name, T: t, Init: &Lit{T: t, I: v}, Annot: true})
+		return &Var{name, t}
+	}
+	lo := operand("lo", start)
+	hi := operand("hi", end)
+	st := operand("st", step)
+	v := g.fresh("q")
+	g.loop++
+	g.push()
+	g.declare(variable{name: v, t: t})
+	var body []Stmt
+	if g.chance(50) {
+		body = append(body, g.stmt(depth-1)...)
+	}
+	body = append(body, g.printVar(v, t))
+	g.pop()
+	g.loop--
+	g.use("for.range.step")
+	return append(pre, &ForRange{Var: v, T: t, Lo: lo, Hi: hi, Step: st, Incl: incl, Body: body})
+}
+
+func min64(a, b int64) int64 {
+	if a < b {
+		return a
+	}
+	return b
+}
+
 func (g *G) forRange(depth int) []Stmt {
+	if g.cfg.on("for.range.step") && g.chance(35) {
+		return g.steppedRange(depth)
+	}
 	t := []*Type{I32, I64, U8, I16, U32}[g.pick(5)]
 	lo, hi := g.fresh("lo"), g.fresh("hi")
 	lov := int64(g.pick(4))
